@@ -206,12 +206,14 @@ func (vr *VerifiableReader) cacheWithReader(ctx context.Context, currentDepth in
 			if !ok {
 				break
 			}
-			if chunkOffset < 0 || chunkSize <= 0 {
-				// Chunk information comes from the (untrusted) TOC.
-				rErr = fmt.Errorf("invalid chunk of %q (off:%d,size:%d)", name, chunkOffset, chunkSize)
+			if chunkOffset < 0 || chunkSize <= 0 || nr < chunkOffset || chunkSize <= nr-chunkOffset {
+				// Chunk information comes from the (untrusted) TOC. A chunk that doesn't cover
+				// the current offset (e.g. a gap between chunks) would make this walk take a
+				// step of one chunk per iteration over a gap of any declared size.
+				rErr = fmt.Errorf("invalid chunk of %q (off:%d,size:%d) for offset %d", name, chunkOffset, chunkSize, nr)
 				return false
 			}
-			nr += chunkSize
+			nr = chunkOffset + chunkSize
 
 			if err := sem.Acquire(ctx, 1); err != nil {
 				rErr = err
